@@ -32,13 +32,20 @@ def exists_ (m : Md) (name : Bytes) : Bool := (m.find name).isSome
 /-- `sbdf_md_cnt` -/
 def cnt (m : Md) : Nat := m.entries.length
 
+def dfltTypeMismatch (v : Obj) : Option Obj → Bool
+  | some d => v.tid != d.tid
+  | none => false
+
+def dfltBadCount : Option Obj → Bool
+  | some d => d.count != 1
+  | none => false
+
 /-- `sbdf_md_add` (checks in the C order) -/
 def add (name : Bytes) (value : Obj) (dflt : Option Obj) (m : Md) : Except Status Md :=
-  if !m.modifiable then .error .mdReadonly
-  else if (match dflt with | some d => value.tid != d.tid | none => false) then .error .valuetypesEq
-  else if value.count != 1 || (match dflt with | some d => d.count != 1 | none => false) then
-    .error .arrayLen1
-  else if m.exists_ name then .error .mdExists
+  if m.modifiable = false then .error .mdReadonly
+  else if dfltTypeMismatch value dflt = true then .error .valuetypesEq
+  else if (value.count != 1 || dfltBadCount dflt) = true then .error .arrayLen1
+  else if m.exists_ name = true then .error .mdExists
   else .ok { m with entries := m.entries ++ [⟨cstr name, some value, dflt⟩] }
 
 /-- `sbdf_md_add_str` -/
@@ -58,7 +65,7 @@ def eraseFirst (p : MdEntry → Bool) : List MdEntry → List MdEntry
 
 /-- `sbdf_md_remove` -/
 def remove (name : Bytes) (m : Md) : Except Status Md :=
-  if !m.modifiable then .error .mdReadonly
+  if m.modifiable = false then .error .mdReadonly
   else .ok { m with entries := eraseFirst (fun e => nameEq e.name name) m.entries }
 
 /-- `sbdf_md_get` (after the repair: the result of the copy is returned, so an entry without
@@ -78,10 +85,10 @@ def getDflt (name : Bytes) (m : Md) : Except Status (Option Obj) :=
 
 /-- `sbdf_md_copy src dst`: all entries appended, or none -/
 def copy (src dst : Md) : Except Status Md :=
-  if !dst.modifiable then .error .mdReadonly
-  else if src.entries.any (fun s => dst.entries.any (fun d => nameEq s.name d.name)) then
+  if dst.modifiable = false then .error .mdReadonly
+  else if src.entries.any (fun s => dst.entries.any (fun d => nameEq s.name d.name)) = true then
     .error .mdExists
-  else if src.entries.any (fun s => s.value.isNone) then .error .argNull
+  else if src.entries.any (fun s => s.value.isNone) = true then .error .argNull
   else .ok { dst with entries := dst.entries ++ src.entries }
 
 /-- `sbdf_md_set_immutable` -/
